@@ -11,6 +11,8 @@ Inductive unwritable (cf : scfg) : node -> Prop :=
 | UW_cdata_unrep : forall s, c_split cf = false -> forallb (c_can cf) s = false -> unwritable cf (CData s)
 | UW_comment_chars : forall s, valid_string false (c_xml11 cf) s = false -> unwritable cf (Comment s)
 | UW_comment_unrep : forall s, forallb (c_can cf) s = false -> unwritable cf (Comment s)
+| UW_comment_dashes : forall s, occurs2 45 45 s || ends_with 45 s = true -> unwritable cf (Comment s)
+| UW_pi_end : forall t d, occurs2 63 62 d = true -> unwritable cf (PI t d)
 | UW_pi_chars : forall t d, valid_string false (c_xml11 cf) t && valid_string false (c_xml11 cf) d = false ->
                 unwritable cf (PI t d)
 | UW_pi_unrep : forall t d, forallb (c_can cf) t && forallb (c_can cf) d = false -> unwritable cf (PI t d)
@@ -55,7 +57,7 @@ Qed.
 
 Theorem unwritable_refused : forall cf n, c_fixed cf = true -> unwritable cf n -> is_err (ser_node cf n).
 Proof.
-  intros cf n Hf H. induction H as [s H|s H|s Hs H|s Hs H|s H|s H|t d H|t d H|n a k H|n a k an av Hin H|n a k an av Hin H|n a kids k Hin H IH].
+  intros cf n Hf H. induction H as [s H|s H|s Hs H|s Hs H|s H|s H|s H|t d H|t d H|t d H|n a k H|n a k an av Hin H|n a k an av Hin H|n a kids k Hin H IH].
   - cbn [ser_node]. rewrite Hf, H. eexists. reflexivity.
   - cbn [ser_node]. rewrite Hf, H. destruct (c_split cf); eexists; reflexivity.
   - cbn [ser_node]. rewrite Hs. destruct (negb (valid_string false (c_xml11 cf) s)); [eexists; reflexivity|].
@@ -63,9 +65,14 @@ Proof.
   - cbn [ser_node]. rewrite Hs. destruct (negb (valid_string false (c_xml11 cf) s)); [eexists; reflexivity|].
     destruct (Nat.ltb 1 (length (cdata_pieces_old s []))); [eexists; reflexivity|]. apply markup_unrep. exact H.
   - cbn [ser_node]. rewrite H. eexists. reflexivity.
-  - cbn [ser_node]. destruct (negb (valid_string false (c_xml11 cf) s)); [eexists; reflexivity|]. apply markup_unrep. exact H.
+  - cbn [ser_node]. destruct (negb (valid_string false (c_xml11 cf) s)); [eexists; reflexivity|].
+    destruct (c_fixed cf && (occurs2 45 45 s || ends_with 45 s)); [eexists; reflexivity|]. apply markup_unrep. exact H.
+  - cbn [ser_node]. destruct (negb (valid_string false (c_xml11 cf) s)); [eexists; reflexivity|].
+    rewrite Hf, H. eexists. reflexivity.
+  - cbn [ser_node]. destruct (negb _); [eexists; reflexivity|]. rewrite Hf, H. eexists. reflexivity.
   - cbn [ser_node]. rewrite H. eexists. reflexivity.
-  - cbn [ser_node]. destruct (negb _); [eexists; reflexivity|]. unfold markup. rewrite !forallb_app.
+  - cbn [ser_node]. destruct (negb _); [eexists; reflexivity|]. destruct (c_fixed cf && occurs2 63 62 d); [eexists; reflexivity|].
+    unfold markup. rewrite !forallb_app.
     apply andb_false_iff in H. destruct H as [H|H].
     + rewrite H, andb_false_r. eexists. reflexivity.
     + destruct d as [|c d']; [discriminate|]. cbn [forallb] in *. rewrite H. rewrite !andb_false_r. eexists. reflexivity.
